@@ -776,7 +776,7 @@ pub fn run(out: &Path, seed: u64, thorough: bool) -> Result<(), Box<dyn std::err
     blocks.extend((0..n(10)).map(|_| { let c = r.below(8) as usize; g_block(&mut r, c) }));
     run_type::<BlockResponseED>(&mut cx, "block", "block", &format!("(c_block {})", gas_limit_coq), "block_eqb", blocks.clone(), vec![]);
     let mut traces: Vec<TraceED> = (0..8).map(|m| g_trace(&mut r, 0, 0, m)).collect();
-    for d in 1..=5 { for f in 1..=3 { let m = r.below(8); traces.push(g_trace(&mut r, d, f, m)); } }
+    for d in 1..=(if thorough { 5 } else { 4 }) { for f in 1..=3 { let m = r.below(8); traces.push(g_trace(&mut r, d, f, m)); } }
     { let mut t = g_trace(&mut r, if thorough { 80 } else { 40 }, 1, 1); fn strip(t: &mut TraceED) { t.input = vec![1u8].into(); t.output = Vec::<u8>::new().into(); for c in t.calls.iter_mut() { strip(c); } } strip(&mut t); traces.push(t); }
     traces.extend((0..n(10)).map(|_| { let (d, f, m) = (r.below(4), r.below(4), r.below(8)); g_trace(&mut r, d, f, m) }));
     run_type::<TraceED>(&mut cx, "trace", "trace", "c_trace", "trace_eqb", traces.clone(), vec![]);
@@ -793,8 +793,8 @@ pub fn run(out: &Path, seed: u64, thorough: bool) -> Result<(), Box<dyn std::err
     // ---- histories
     // every value type the versioned tables store
     run_hist::<U64ED>(&mut cx, "histU64", "N", "c_U64", "N.eqb", 36, g_u64ed);
-    run_hist::<AccountInfoED>(&mut cx, "histaccount", "account", "c_account", "account_eqb", 30, g_account);
-    run_hist::<B256ED>(&mut cx, "histb256", "bytes", "c_b256", "bytes_eqb", 30, g_b256);
+    run_hist::<AccountInfoED>(&mut cx, "histaccount", "account", "c_account", "account_eqb", 20, g_account);
+    run_hist::<B256ED>(&mut cx, "histb256", "bytes", "c_b256", "bytes_eqb", 20, g_b256);
     run_hist::<U256ED>(&mut cx, "histU256", "N", "c_U256", "N.eqb", 16, g_u256);
     run_hist::<String>(&mut cx, "histstring", "bytes", "c_string", "bytes_eqb", 16, g_string);
     run_hist::<BytecodeED>(&mut cx, "histbytecode", "bytes", "c_bytecode", "bytes_eqb", 10, g_bytecode);
@@ -839,7 +839,8 @@ pub fn run(out: &Path, seed: u64, thorough: bool) -> Result<(), Box<dyn std::err
             // buffers whose outcome does not depend on the RLP decoder: truncations (panic), a non-hex
             // character (Err), a doubled "0x" prefix (accepted: trim_start_matches removes both)
             let mut bufs: Vec<(Vec<u8>, usize)> = Vec::new();
-            for c in [3usize, enc.len() / 2, enc.len() - 1] { if c < enc.len() { bufs.push((enc[..c].to_vec(), 0)); } }
+            if !thorough && i >= 4 { continue; }
+            for c in [3usize, enc.len() - 1] { if c < enc.len() { bufs.push((enc[..c].to_vec(), 0)); } }
             let mut bad = enc.clone(); bad[4 + 2 + (r.below(20) as usize)] = b'g'; bufs.push((bad, 0));
             let mut bad2 = enc.clone(); let l = bad2.len(); if ntx > 0 && !brc.is_empty() { bad2[l - 1] = b'x'; bufs.push((bad2, 0)); }
             let mut dbl = Vec::new(); format!("0x{}", rb.raw_block()).encode(&mut dbl); rb.raw_receipts().encode(&mut dbl); bufs.push((dbl, 0));
@@ -1006,7 +1007,7 @@ pub fn run(out: &Path, seed: u64, thorough: bool) -> Result<(), Box<dyn std::err
             json_roundtrip(&mut cx, "txpool_content", &pool, false);
             json_roundtrip(&mut cx, "Vec<LogED>", &g_vec(&mut r, 4, g_log), true);
             json_roundtrip(&mut cx, "Option<TxED>", &if i % 2 == 0 { None } else { Some(txs[i % txs.len()].clone()) }, true);
-            json_roundtrip(&mut cx, "Option<TraceED>", &if i % 2 == 0 { None } else { Some(traces[i % traces.len()].clone()) }, true);
+            { let tr = &traces[i % traces.len()]; json_roundtrip(&mut cx, "Option<TraceED>", &if i % 2 == 0 { None } else { Some(tr.clone()) }, tdepth(tr) <= 60); }
             json_roundtrip(&mut cx, "Vec<TxReceiptED>", &rcs.iter().skip(i).take(3).cloned().collect::<Vec<_>>(), true);
         }
         // request types
